@@ -356,7 +356,8 @@ func (x *xl) namedConst(n ast.Node, txt string) (tx, bool) {
 	return tx{}, false
 }
 
-// srcConst finds `const name = <literal>` at package level of the translated file.
+// srcConst finds `const name = <literal>` at package level of the translated file; in a block whose first spec is
+// `= iota` (plain, optionally typed) and whose other specs repeat it implicitly, the value is the spec's position.
 func (x *xl) srcConst(name string) (constant.Value, bool) {
 	if x.file == nil {
 		return nil, false
@@ -366,11 +367,27 @@ func (x *xl) srcConst(name string) (constant.Value, bool) {
 		if !ok || gd.Tok != token.CONST {
 			continue
 		}
-		for _, sp := range gd.Specs {
+		plainIota := false
+		for si, sp := range gd.Specs {
 			vs := sp.(*ast.ValueSpec)
+			if si == 0 {
+				if len(vs.Names) == 1 && len(vs.Values) == 1 {
+					if id, ok := vs.Values[0].(*ast.Ident); ok && id.Name == "iota" {
+						plainIota = true
+					}
+				}
+			} else if len(vs.Values) != 0 || len(vs.Names) != 1 {
+				plainIota = false
+			}
 			for i, id := range vs.Names {
-				if id.Name != name || i >= len(vs.Values) {
+				if id.Name != name {
 					continue
+				}
+				if plainIota {
+					return constant.MakeInt64(int64(si)), true
+				}
+				if i >= len(vs.Values) {
+					return nil, false
 				}
 				if lit, ok := vs.Values[i].(*ast.BasicLit); ok && (lit.Kind == token.STRING || lit.Kind == token.INT || lit.Kind == token.CHAR) {
 					v := constant.MakeFromLiteral(lit.Value, lit.Kind, 0)
@@ -833,8 +850,24 @@ func (x *xl) callExpr(c *ast.CallExpr) (tx, bool) {
 				return x.appendCall(c), false
 			case "make":
 				// make([]T, 0, n): the empty slice (slices are values; capacity has no meaning — see `cap` in the docs)
+				if len(c.Args) == 2 {
+					// make([]T, n): what a fresh slice of n elements is, is the entry's shim "make" (an intrinsic)
+					t, ok := x.tryType(c.Args[0])
+					sh, has := x.fn.calls["make"]
+					if !ok || !strings.HasPrefix(t, "[]") || !has || sh.kind != "ext" || len(sh.res) != 1 || sh.res[0] != t {
+						x.fail(c, "make(%s, n) needs a shim \"make\" of kind ext with this result type", exprString(c.Args[0]))
+					}
+					n := x.expr(c.Args[1])
+					if n.typ == "untyped" {
+						n = x.constTo(c, n, "int")
+					}
+					if !isInt(n.typ) {
+						x.fail(c, "make length of type %s", n.typ)
+					}
+					return tx{lean: "(.call " + leanStr(sh.f) + " [" + n.lean + "])", typ: t}, false
+				}
 				if len(c.Args) != 3 {
-					x.fail(c, "make is in the subset only as make([]T, 0, n)")
+					x.fail(c, "make is in the subset only as make([]T, 0, n) and make([]T, n)")
 				}
 				t, ok := x.tryType(c.Args[0])
 				if !ok || !strings.HasPrefix(t, "[]") {
@@ -968,6 +1001,20 @@ func (x *xl) callExpr(c *ast.CallExpr) (tx, bool) {
 		for _, a := range c.Args {
 			args = append(args, x.defaulted(a, x.expr(a)).lean)
 		}
+	}
+	if strings.HasPrefix(sh.kind, "mutarg:") {
+		// statement  args[N], lhs… = f(args…): an external intrinsic that writes through its N-th argument (a slice the
+		// callee fills, e.g. runtime.Callers(skip, pcs)); the argument must be assignable
+		idx, err := strconv.Atoi(sh.kind[7:])
+		if err != nil || idx < 0 || idx >= len(c.Args) || hasRecv {
+			x.fail(c, "shim %s on %s", sh.kind, key)
+		}
+		addArgs()
+		lv, _ := x.lvalue(c.Args[idx])
+		pendingCall = &tcall{ctor: "callX", f: sh.f, args: args, res: sh.res, pre: []string{lv}}
+		x.addTrace(c, sh, key, args)
+		pendingCall.pureTrace = false
+		return tx{}, true
 	}
 	switch sh.kind {
 	case "len":
@@ -1621,6 +1668,21 @@ func (x *xl) assign(t *ast.AssignStmt) string {
 			x.fail(t, "op-assignment changes the type %s to %s", typ, v.typ)
 		}
 		return "(.assign [" + lv + "] [" + v.lean + "])"
+	}
+	// `v := pool.Get()` with a shim of kind "object" in a plain function: from here on v IS the object whose fields the
+	// entry maps (the field environment at entry describes what Get returns); v.f reads / writes those fields
+	if len(t.Lhs) == 1 && len(t.Rhs) == 1 && t.Tok == token.DEFINE {
+		if c, isCall := t.Rhs[0].(*ast.CallExpr); isCall && len(c.Args) == 0 {
+			if sh, ok := x.fn.calls[exprString(c.Fun)]; ok && sh.kind == "object" {
+				id, isId := t.Lhs[0].(*ast.Ident)
+				if !isId || x.recvVar != "" || x.fd.Recv != nil || x.depth != 1 {
+					x.fail(t, "shim object: only `v := f()` at the top level of a plain function")
+				}
+				x.recvVar = id.Name
+				x.legend = append(x.legend, id.Name+" = THE object of the field environment (from "+exprString(c.Fun)+"())")
+				return ".skip"
+			}
+		}
 	}
 	// `recv = fresh()`: the receiver variable is re-pointed to a fresh zeroed object
 	if len(t.Lhs) == 1 && len(t.Rhs) == 1 && t.Tok == token.ASSIGN {
